@@ -569,6 +569,21 @@ impl<'a, 'tcx> FnCx<'a, 'tcx> {
                 v = self.base("path", e.span, ty, id);
                 let r = self.qpath(q, e.hir_id);
                 v.extend(r);
+                // a local `const` / `static`: export its initialiser, so that tables of literals can be read
+                if let Res::Def(DefKind::Const { .. } | DefKind::Static { .. }, did) = self.typeck.qpath_res(q, e.hir_id) {
+                    if let Some(ldid) = did.as_local() {
+                        if let Some(body) = self.tcx().hir_maybe_body_owned_by(ldid) {
+                            let old_t = self.typeck;
+                            let old_o = self.owner;
+                            self.typeck = self.tcx().typeck(ldid);
+                            self.owner = ldid;
+                            let init = self.expr(body.value);
+                            self.typeck = old_t;
+                            self.owner = old_o;
+                            v.push(("const_init", init));
+                        }
+                    }
+                }
             }
             AddrOf(_, m, x) => {
                 v = self.base("ref", e.span, ty, id);
